@@ -7,7 +7,7 @@
     handles on one block and [k = UMAX] the stored count becomes 0 ("unique")
     although two handles exist; dropping one of them then frees the block under
     the other: a dangling handle whose view changes from 24 bytes to []. *)
-From Hip Require Import Base Range Utf8 StrRange Bytes BytesSpec BytesInv.
+From Hip Require Import Base Range Utf8 StrRange Bytes BytesSpec BytesInv BytesLib BytesProofs3 BytesProofs.
 
 Definition cx_x : list N := repeat 65 (24%nat).
 Definition cx_ops : list op := [OFromSlice cx_x; OClone 0; OForceCount 0 UMAX].
@@ -19,11 +19,20 @@ Definition cx_st2 : state := fst (run BArc TByt init [OFromSlice cx_x; OClone 0]
 Definition cx_st3 : state := fst (run BArc TByt init cx_ops).
 Definition cx_st4 : state := fst (run BArc TByt init (cx_ops ++ [ODrop 0])).
 
-(** the state before the hook satisfies every clause of the invariant that the hook breaks *)
-Lemma cx_before_ok : forall blk, get_b cx_st2 0 = Some blk -> block_ok BArc cx_st2 0 blk.
+(** the state before the hook satisfies the invariant (it is reached from [init] without any hook) *)
+Lemma cx_before_inv : Inv BArc cx_st2.
 Proof.
-  intros blk E. vm_compute in E. inversion E; subst blk. unfold block_ok. vm_compute.
-  repeat split; try discriminate; intros H; discriminate H.
+  apply (run_inv_no_hook BArc TByt [OFromSlice cx_x; OClone 0] init cx_st2 (snd (run BArc TByt init [OFromSlice cx_x; OClone 0]))).
+  - repeat constructor.
+  - apply init_inv.
+  - vm_compute. reflexivity.
+Qed.
+
+(** the side condition of the proved theorems is exactly what fails here *)
+Lemma cx_not_force_ok : ~ force_ok cx_st2 (OForceCount 0 UMAX).
+Proof.
+  intros H. cbn [force_ok] in H.
+  specialize (H (mkH (RAlloc 0 0 24) false) 0 0 24 eq_refl eq_refl). vm_compute in H. apply H. reflexivity.
 Qed.
 
 Lemma cx_step : step BArc TByt cx_st2 (OForceCount 0 UMAX) = (cx_st3, UUnit).
@@ -46,3 +55,19 @@ Proof.
   split; [vm_compute; reflexivity|]. split; [vm_compute; reflexivity|].
   intros H. vm_compute in H. destruct H as [H _]. discriminate H.
 Qed.
+
+(** hence the unconditional statements are refuted *)
+Theorem step_inv_unconditional_false :
+  ~ (forall bk ty st o st' u, Inv bk st -> step bk ty st o = (st', u) -> Inv bk st').
+Proof. intros H. exact (cx_not_inv (H _ _ _ _ _ _ cx_before_inv cx_step)). Qed.
+
+Theorem run_inv_unconditional_false :
+  ~ (forall bk ty ops st st' us, Inv bk st -> run bk ty st ops = (st', us) -> Inv bk st').
+Proof.
+  intros H. apply cx_not_inv.
+  apply (H BArc TByt cx_ops init cx_st3 (snd (run BArc TByt init cx_ops)) (init_inv BArc)).
+  vm_compute. reflexivity.
+Qed.
+
+Print Assumptions step_inv_unconditional_false.
+Print Assumptions run_inv_unconditional_false.
